@@ -15,7 +15,7 @@ STATIC_LENS = (3, 32, 1, 5, 17, 2)
 OPS = ("update", "available", "any", "pipe", "fifo", "tx_full", "irq", "read", "clear", "flush_rx", "flush_tx",
        "last_tx_arc", "interrupt_config")
 CONFIG_WRITERS = ("listen_flip", "listen_same", "crc", "power_cycle", "reenter")
-BLOCK_OPS = ("foreign_block",)
+BLOCK_OPS = ("foreign_block", "load_ack_static")
 
 
 def decode_status(ctx, nrf, st, what):
@@ -109,6 +109,16 @@ def h_history(ctx, ops, role, driver="full", light=False):
             elif op == "reenter":
                 nrf.__exit__(None, None, None)
                 nrf.__enter__()
+            elif op == "load_ack_static":
+                # an ACK payload loaded for a pipe: enables the ACK-payload feature if need be (pipe 0 dynamic, documented) and
+                # otherwise leaves every pipe's length mode and static width as configured - any()/read() rely on them
+                if role == "rx" and len(radio.tx_fifo) < 3:
+                    modes0, widths0 = radio.reg[0x1C], [radio.reg[0x11 + p] for p in range(6)]
+                    q = 1 + ctx.choice("ack_pipe%d" % step, 5)
+                    ctx.check(nrf.load_ack(b"\x07\x08", q) == True, "load_ack_static: accepted while the TX FIFO has room")  # noqa: E712
+                    ctx.check((radio.reg[0x1C] & 0x3E) == (modes0 & 0x3E), "load_ack_static: the length modes of pipes 1-5 stay as configured")
+                    for p in range(6):
+                        ctx.check(radio.reg[0x11 + p] == widths0[p], "load_ack_static: static widths stay as configured")
             elif op == "foreign_block":
                 # another driver object uses the shared radio in a block of its own (other widths, pipes closed); back in this
                 # object's block the pipes are opened again: the widths any()/read() rely on must be the radio's
@@ -220,12 +230,12 @@ def jobs(tier):
         seqs += [("read", "read", b) for b in OPS] + [("read", "flush_rx", b) for b in OPS] + [("clear", "read", b) for b in OPS]
     seqs += [("interrupt_config", w) for w in CONFIG_WRITERS] + [("interrupt_config", "listen_flip", "interrupt_config"),
                                                                  ("interrupt_config", "reenter", "listen_flip")]
-    seqs += [("foreign_block",), ("foreign_block", "any"), ("foreign_block", "read")]
+    seqs += [("foreign_block",), ("foreign_block", "any"), ("foreign_block", "read"), ("load_ack_static", "any"), ("load_ack_static", "read")]
     if tier != "quick":
         seqs += [("interrupt_config", w, v) for w in CONFIG_WRITERS for v in CONFIG_WRITERS + ("update", "read", "clear")]
     for s in sorted(set(seqs)):
         for role in ("rx", "tx"):
-            if "foreign_block" in s and role == "tx":
+            if ("foreign_block" in s or "load_ack_static" in s) and role == "tx":
                 continue
             light = any(o in CONFIG_WRITERS for o in s)  # the IRQ mask does not depend on how full the FIFOs are
             out.append(Job("accessor-history", h_history, dict(ops=list(s), role=role, **({"light": True} if light else {})), cost=len(s)))
